@@ -101,6 +101,7 @@ type StepRig struct {
 	outs    []Out
 	events  []utils.Event
 	syncCh  chan chan struct{}
+	holdCh  chan chan struct{}
 	stopCol chan struct{}
 	colDone chan struct{}
 
@@ -134,7 +135,7 @@ func NewStepRig(cfg StepCfg) (*StepRig, error) {
 	if cfg.OnLogon == nil {
 		cfg.OnLogon = func(*session.LogonSettings) error { return nil }
 	}
-	r := &StepRig{Cfg: cfg, syncCh: make(chan chan struct{}), stopCol: make(chan struct{}), colDone: make(chan struct{}),
+	r := &StepRig{Cfg: cfg, syncCh: make(chan chan struct{}), holdCh: make(chan chan struct{}), stopCol: make(chan struct{}), colDone: make(chan struct{}),
 		barrier: make(chan struct{}, 4), registered: map[string]bool{}, runDone: make(chan struct{}), Started: time.Now()}
 	ctx, cancel := context.WithCancel(context.Background())
 	r.cancel = cancel
@@ -192,6 +193,12 @@ func NewStepRig(cfg StepCfg) (*StepRig, error) {
 				r.mu.Unlock()
 			case ack := <-r.syncCh:
 				close(ack)
+			case rel := <-r.holdCh:
+				select {
+				case <-rel:
+				case <-r.stopCol:
+					return
+				}
 			case <-r.stopCol:
 				return
 			}
@@ -366,6 +373,18 @@ func (r *StepRig) Do(fn func() error) StepResult {
 func (r *StepRig) Snapshot() (outs int, events int) {
 	m := r.mark()
 	return m.outs, m.events
+}
+
+// HoldOutgoing makes the collector stop taking messages from Outgoing() until the returned function is
+// called: with a buffered handler what the session sends meanwhile stays queued in the handler's channel.
+// Do not call Do/Inbound/AllOuts while holding (they wait for the collector).
+func (r *StepRig) HoldOutgoing() (release func()) {
+	rel := make(chan struct{})
+	select {
+	case r.holdCh <- rel:
+	case <-r.colDone:
+	}
+	return func() { close(rel) }
 }
 
 // AllOuts returns every message emitted so far.
